@@ -1,0 +1,20 @@
+//go:build verif
+
+package agent
+
+import (
+	"net"
+
+	"github.com/postalsys/muti-metroo/internal/crypto"
+)
+
+// VerifConnSession returns the end-to-end session key and the first-hop stream
+// id of a tunnel connection returned by DialContext / DialForward (nil, 0 for
+// any other net.Conn).
+func VerifConnSession(c net.Conn) (*crypto.SessionKey, uint64) {
+	mc, ok := c.(*meshConn)
+	if !ok || mc.stream == nil {
+		return nil, 0
+	}
+	return mc.stream.GetSessionKey(), mc.streamID
+}
